@@ -325,8 +325,11 @@ func (e *env) specialValueChecks() {
 	scalars := []*big.Int{big.NewInt(0), big.NewInt(1), big.NewInt(2), new(big.Int).Sub(ref.L, big.NewInt(1)), new(big.Int).Sub(ref.L, big.NewInt(2)),
 		new(big.Int).Lsh(big.NewInt(1), 252), new(big.Int).Rsh(ref.L, 1)}
 	ctx, msg := []byte(""), []byte("")
-	zeroSig := make([]byte, 64)
-	zeroSig[63] = 128 // R = identity (all-zero encoding), s = 0, marker set
+	mkZeroSig := func() []byte { // a private copy per use: R = identity (all-zero encoding), s = 0, marker set
+		z := make([]byte, 64)
+		z[63] = 128
+		return z
+	}
 	c.Par("special-values", len(scalars)*len(e.srcs), func(w *mc.W, i int) {
 		sv, src := scalars[i/len(e.srcs)], e.srcs[i%len(e.srcs)]
 		what := fmt.Sprintf("secret scalar %s, source %s, empty context and message", sv.Text(16), src.name)
@@ -344,8 +347,14 @@ func (e *env) specialValueChecks() {
 		}
 		rpk := rsk.PublicKey()
 		ver := refsr.NewVerifier(rpk)
-		st := src.mk(sr25519.NewSigningContext(ctx), msg)
 		rt := refTranscript(src, ctx, msg)
+		// reference-side self-check first, on private bytes, before any library call of this case
+		wantZ := ver.Verify(rt, mkZeroSig()) // true exactly for the identity public key
+		if wantZ != (sv.Sign() == 0) {
+			c.Broken("reference verdict on the zero signature is not as derived")
+			return
+		}
+		st := src.mk(sr25519.NewSigningContext(lendAs("NewSigningContext", ctx)), lendAs("message", msg))
 		want := refsr.Sign(rsk, rpk, rt, make([]byte, 32))
 		s, err := kp.Sign(mkReader(rdZero), st)
 		if err != nil || !bytes.Equal(mustMarshal(s), want.Sig) {
@@ -360,14 +369,9 @@ func (e *env) specialValueChecks() {
 			w.Fail("PublicKey.Verify/complete", "own signature does not verify | "+what, cas)
 		}
 		// the all-zero signature (R = identity, s = 0) and the genuine one, singly and in batches in both orders
-		z, err := sr25519.NewSignatureFromBytes(zeroSig)
+		z, err := sr25519.NewSignatureFromBytes(lendAs("Signature.UnmarshalBinary", mkZeroSig()))
 		if err != nil {
 			w.Fail("Signature.UnmarshalBinary/accept", "R = identity, s = 0 with the marker set is a well-formed signature", cas)
-			return
-		}
-		wantZ := ver.Verify(rt, zeroSig) // true exactly for the identity public key
-		if wantZ != (sv.Sign() == 0) {
-			c.Broken("reference verdict on the zero signature is not as derived")
 			return
 		}
 		if got := kp.PublicKey().Verify(st, z); got != wantZ {
